@@ -1,6 +1,7 @@
 /-
 Soundness of the grouping-stack typing, part 2: every case of the switch preserves the typing part of the invariant
-(`TBodyOk`) and raises none of the discipline faults `stackUnderflow`, `tracktoRange`, `textposRange`, `crawlUnderflow`.
+(`TBodyOk`, which includes the capture invariant `CapOk`) and raises none of the discipline faults `stackUnderflow`,
+`tracktoRange`, `textposRange`, `crawlUnderflow`, `capRange`.
 -/
 import RegexVerif.Lemmas.StackTypingSound
 
